@@ -203,4 +203,68 @@ example : coordPos (.multiLineString [[⟨0, 0⟩, ⟨1, 0⟩], [⟨1, 0⟩, ⟨
     locate (.multiLineString [[⟨0, 0⟩, ⟨1, 0⟩], [⟨1, 0⟩, ⟨2, 0⟩]]) ⟨2, 0⟩ :=
   coordPos_mls_eq_locate_partial _ _ (by decide +kernel)
 
+/-! ### folds, bounding-box rejection, symmetry of the dispatch -/
+
+/-- [T] `has_disjoint_bboxes` is sound for the segment kernel: if the bounding boxes of two
+LineStrings do not intersect, no segment of one meets a segment of the other. -/
+theorem disjointBB_lineString_sound (cs ds : List Pt)
+    (h : disjointBB (.lineString cs) (.lineString ds) = true) :
+    ∀ s ∈ segs cs, ∀ t ∈ segs ds, lineLine s.1 s.2 t.1 t.2 = false :=
+  Loc.disjointBB_lineString_sound cs ds h
+
+example : lineLine ⟨0, 0⟩ ⟨1, 1⟩ ⟨3, 0⟩ ⟨4, 5⟩ = false :=
+  disjointBB_lineString_sound [⟨0, 0⟩, ⟨1, 1⟩] [⟨3, 0⟩, ⟨4, 5⟩] (by decide +kernel)
+    (⟨0, 0⟩, ⟨1, 1⟩) (by simp [segs]) (⟨3, 0⟩, ⟨4, 5⟩) (by simp [segs])
+
+/-- [T] `LineString: Intersects<Line>`: the bounding-box early return loses nothing — the result
+is `any` of the segment kernel. -/
+theorem lsLine_eq (cs : List Pt) (a b : Pt) :
+    lsLine cs a b = (segs cs).any (fun s => lineLine s.1 s.2 a b) :=
+  Loc.lsLine_eq cs a b
+
+/-- [T] `MultiPoint: Intersects<G>` is `any` over its points. -/
+theorem intersectsM_multiPoint (cs : List Pt) (b : Geom) :
+    intersectsM (.multiPoint cs) b = cs.any (fun c => intersectsM (.point c) b) :=
+  Loc.intersectsM_multiPoint cs b
+
+/-- [T] `LineString: Intersects<G>`: bounding-box test, then `any` over its segments. -/
+theorem intersectsM_lineString (cs : List Pt) (b : Geom) :
+    intersectsM (.lineString cs) b =
+      (!disjointBB (.lineString cs) b && (segs cs).any (fun s => intersectsM (.line s.1 s.2) b)) :=
+  Loc.intersectsM_lineString cs b
+
+/-- [T] `MultiPolygon: Intersects<G>`: bounding-box test, then `any` over its polygons. -/
+theorem intersectsM_multiPolygon (ps : List Poly) (b : Geom) :
+    intersectsM (.multiPolygon ps) b =
+      (!disjointBB (.multiPolygon ps) b && ps.any (fun p => intersectsM (.polygon p) b)) :=
+  Loc.intersectsM_multiPolygon ps b
+
+/-- [T] `GeometryCollection: Intersects<G>`: bounding-box test, then `any` over its members. -/
+theorem intersectsM_collection (gs : List Geom) (b : Geom) :
+    intersectsM (.collection gs) b =
+      (!disjointBB (.collection gs) b && gs.any (fun g => intersectsM g b)) :=
+  Loc.intersectsM_collection gs b
+
+/-- [T] `intersects` is symmetric on every pair of primitives (Point, Line, Rect, Triangle,
+Polygon) except Triangle × Triangle and Polygon × Polygon (`Loc.kernelPair`): both dispatch orders
+reach the same kernel term, up to the proved symmetry of Coord × Coord, Line × Line and Rect × Rect.
+Full statement (all pairs): the two excluded pairs run the asymmetric `Polygon × Polygon` body
+([C] only). -/
+theorem intersectsM_symm_partial (a b : Geom) (h : Loc.kernelPair a b = true) :
+    intersectsM a b = intersectsM b a :=
+  Loc.intersectsM_symm_kernel a b h
+
+example : intersectsM (.line ⟨0, 0⟩ ⟨2, 2⟩) (.rect ⟨1, 1⟩ ⟨3, 3⟩) =
+    intersectsM (.rect ⟨1, 1⟩ ⟨3, 3⟩) (.line ⟨0, 0⟩ ⟨2, 2⟩) :=
+  intersectsM_symm_partial _ _ rfl
+
+/-- [T] `MultiPoint × primitive` is symmetric. -/
+theorem intersectsM_symm_multiPoint (cs : List Pt) (b : Geom) (h : Loc.prim b = true) :
+    intersectsM (.multiPoint cs) b = intersectsM b (.multiPoint cs) :=
+  Loc.intersectsM_symm_multiPoint cs b h
+
+example : intersectsM (.multiPoint [⟨0, 0⟩, ⟨1, 1⟩]) (.triangle ⟨0, 0⟩ ⟨4, 0⟩ ⟨0, 4⟩) =
+    intersectsM (.triangle ⟨0, 0⟩ ⟨4, 0⟩ ⟨0, 4⟩) (.multiPoint [⟨0, 0⟩, ⟨1, 1⟩]) :=
+  intersectsM_symm_multiPoint _ _ rfl
+
 end Geo.Proofs.C02
